@@ -92,7 +92,36 @@ def _re_match(it, self, args, kw):
         pat = pat.f["pattern"]
     if isinstance(pat, VStr) and pat.conc is not None:
         return match_literal(it, pat.conc, s)
-    raise OutOfSubset("re.match with a symbolic pattern")
+    if not isinstance(pat, VStr) or not isinstance(s, VStr):
+        raise OutOfSubset("re.match with a symbolic non-str pattern / subject")
+    return _user_pattern(it, "match", pat, s)
+
+
+# user-supplied patterns: one uninterpreted predicate per matching mode, related only by what holds for EVERY pattern:
+#   fullmatch(p, s) => match(p, s) => search(p, s)       (a full match is a match at the start; a match at the start is found by search)
+RE_MATCH = z3.Function("RE_MATCH", S, S, z3.BoolSort())
+RE_SEARCH = z3.Function("RE_SEARCH", S, S, z3.BoolSort())
+
+
+def _user_pattern(it, mode, pat, s):
+    it.assumptions_used.add("re.match / re.search / re.fullmatch with a user pattern are uninterpreted predicates related by fullmatch => match => search; patterns are assumed valid")
+    f, m, r = FULLMATCH(pat.e, s.e), RE_MATCH(pat.e, s.e), RE_SEARCH(pat.e, s.e)
+    it.assume(z3.Implies(f, m))
+    it.assume(z3.Implies(m, r))
+    if it.branch({"match": m, "search": r, "fullmatch": f}[mode]):
+        return VLib("Match", groups=[], named={}, whole=s)
+    return NONE
+
+
+@handler("re.search")
+def _re_search(it, self, args, kw):
+    pat, s = args[0], args[1]
+    if isinstance(pat, VStr) and isinstance(s, VStr) and (pat.conc is None or s.conc is None):
+        return _user_pattern(it, "search", pat, s)
+    if isinstance(pat, VStr) and isinstance(s, VStr):
+        import re
+        return VLib("Match", groups=[], named={}, whole=s) if re.search(pat.conc, s.conc) else NONE
+    raise OutOfSubset("re.search with a non-str pattern / subject")
 
 
 @handler("re.fullmatch")
